@@ -36,6 +36,9 @@ def check(repo: Repo, rep, tier):
     from .C14 import reeval_type
 
     reeval_type(repo, rep)
+    from .C04 import xfail
+
+    xfail(repo, rep)
 
 
 def no_flags(v):
